@@ -4,8 +4,8 @@
     torch's deterministic element-wise functions); [fs] are ANY node functions of the form their op-kind dictates. *)
 From Coq Require Import ZArith List Bool Arith PeanoNat Permutation.
 From Leaspy Require Import Locality.AxisTypes Locality.AxisProofs Locality.SamplerRows Locality.SamplerRowsProofs
-  Locality.Shipped Locality.AxisExamples.
-From LeaspyGen Require Import GenC07.
+  Locality.Shipped Locality.AxisExamples Locality.SamplerReadsTie.
+From LeaspyGen Require Import GenC07 GenC07Reads.
 Import ListNotations.
 
 (** Core: re-indexing the individual axis of the inputs by any list [p] of valid positions (a permutation, one
@@ -186,3 +186,19 @@ Theorem C07_illtyped_rejected_and_not_local :
   vrow Z 0 (match eval Z Z.add toy_bad toy_fs (toy_inp ys2) 3 6 with Some v => v | None => VPop [] end).
 Proof. split; [exact toy_well_typed | split; [exact toy_bad_rejected | exact toy_bad_not_local]]. Qed.
 Print Assumptions C07_illtyped_rejected_and_not_local.
+
+(** Extension — which nodes [IndividualGibbsSampler.sample] reads is no longer taken from the source by hand: every use of
+    `state` in that method, the decision expression of `_group_metropolis_step`, the std update and the shapes of the
+    adapted std / acceptance window, regenerated with python `ast`, ARE the header of Locality/SamplerRows.v. *)
+Theorem C07_sample_reads_tie :
+  gen_sample_reads = sample_reads /\ gen_sample_writes = sample_writes /\ gen_group_decision = group_decision /\
+  gen_std_update = std_update /\ gen_acceptation_update = acceptation_update /\
+  gen_shape_adapted_std = shape_adapted_std /\ gen_shape_acceptation = shape_acceptation.
+Proof. exact sample_reads_tie. Qed.
+Print Assumptions C07_sample_reads_tie.
+
+(** ... and in every shipped graph, for every individual latent variable, each of these nodes carries the individual axis
+    and is not an aggregate over individuals (the hypothesis of [C07_sampler_rows] on [reads]). *)
+Theorem C07_sample_reads_local : sample_reads_local shipped shipped_reads = true /\ length shipped_reads = shipped_expected.
+Proof. split; vm_compute; reflexivity. Qed.
+Print Assumptions C07_sample_reads_local.
